@@ -1,0 +1,32 @@
+//go:build verif
+
+package wgsl
+
+import (
+	"github.com/gogpu/naga/ir"
+	"github.com/gogpu/naga/wgsl/internal/lower"
+)
+
+// VerifToken is a read-only view of one lexer token (verification builds only).
+type VerifToken struct {
+	Kind   string
+	Lexeme string
+	Line   int
+	Column int
+}
+
+// VerifTokens returns the token sequence held by t.
+func VerifTokens(t *Tokens) []VerifToken {
+	out := make([]VerifToken, len(t.inner))
+	for i, tok := range t.inner {
+		out[i] = VerifToken{Kind: tok.Kind.String(), Lexeme: tok.Lexeme, Line: tok.Line, Column: tok.Column}
+	}
+	return out
+}
+
+// VerifSetLowerStageHook installs f to be called with the stage name and the
+// module after per-declaration lowering and after each post-lowering stage.
+// Pass nil to remove it.
+func VerifSetLowerStageHook(f func(stage string, m *ir.Module)) {
+	lower.VerifStageHook = f
+}
